@@ -197,6 +197,7 @@ func C15(t Tier) int {
 							}{
 								{"mint-then-burn-token-of-B", []sdk.Msg{pnfttypes.NewMsgMintPNFTRequest("d", "t9", "n", "", "", "", e.A.Bech, ""), pnfttypes.NewMsgBurnPNFTRequest("d", "t", e.A.Bech)}},
 								{"mint-then-transfer-token-of-B", []sdk.Msg{pnfttypes.NewMsgMintPNFTRequest("d", "t9", "n", "", "", "", e.A.Bech, ""), pnfttypes.NewMsgTransferPNFTRequest("d", "t", e.A.Bech, e.W.Bech)}},
+								{"create-topic-then-delete-denom-holding-a-token-of-B", []sdk.Msg{aoltypes.NewMsgCreateTopic("x15", "", e.A.Bech), pnfttypes.NewMsgDeleteDenomRequest("d", e.A.Bech)}},
 								{"hand-over-denom-then-mint", []sdk.Msg{pnfttypes.NewMsgTransferRequest("d", e.A.Bech, e.B.Bech), pnfttypes.NewMsgMintPNFTRequest("d", "t8", "n", "", "", "", e.A.Bech, "")}},
 								{"delete-writer-then-add-writer-twice", []sdk.Msg{aoltypes.NewMsgDeleteWriter("a", e.W.Bech, e.A.Bech), aoltypes.NewMsgAddWriter("a", "w", "", e.W.Bech, e.A.Bech), aoltypes.NewMsgAddWriter("a", "w", "", e.W.Bech, e.A.Bech)}},
 							}
